@@ -128,6 +128,24 @@ def mesh_level(ctx, expected):
         c = np.asarray(mesh.center)[:dim]
         if np.abs(c - np.array(size) / 2).max() > 1e-11 * max(size):
             ctx.violation(f"mesh-center/{et}", f"centroid of the {size} box meshed with {et} is {c}", {"elem": str(et)})
+        # the same mesh object re-coordinated in place by an affine (non-rigid) map: sizes follow the new geometry
+        A = np.array([[2.0, 0.5, 0.0], [0.0, 1.5, 0.0], [0.0, 0.0, 0.5]])
+        shift = np.array([1.0, -2.0, 0.5])
+        _ = [getattr(g, {1: "length_e", 2: "area_e", 3: "volume_e"}[dim]) for g in mesh.Get_list_groupElem(dim)]  # sizes read once before the change
+        with quiet():
+            mesh.coord = mesh.coord @ A.T + shift
+        factor = {1: 2.0, 2: 3.0, 3: 1.5}[dim]
+        meas2 = mesh.length if dim == 1 else mesh.area if dim == 2 else mesh.volume
+        sizes2 = sum(float(np.sum(getattr(g, {1: "length_e", 2: "area_e", 3: "volume_e"}[dim]))) for g in mesh.Get_list_groupElem(dim))
+        int2 = sum(float(np.sum(g.Integrate_e(lambda x, y, z: 1.0 + 0 * x, MatrixType.mass))) for g in mesh.Get_list_groupElem(dim))
+        for what, val in (("measure", meas2), ("element sizes", sizes2), ("integral of 1", int2)):
+            if abs(val - factor * exm) > 1e-10 * factor * exm:
+                ctx.violation(f"mesh-recoordinated/{et}", f"{what} of the {size} box meshed with {et} after mesh.coord = A X + b (|det A| = {factor} on the mesh's dimension) is {val}, exact {factor * exm}", {"elem": str(et), "what": what})
+        c2 = np.asarray(mesh.center)
+        cexp = A @ np.array(list(np.array(size) / 2) + [0.0] * (3 - dim)) + shift
+        if np.abs(c2 - cexp).max() > 1e-10 * np.abs(cexp).max():
+            ctx.violation(f"mesh-recoordinated-center/{et}", f"centroid of the re-coordinated {size} box meshed with {et} is {c2}, exact {cexp}", {"elem": str(et)})
+        ctx.count(1, distinct_key=("mesh-recoordinated", str(et)))
 
 
 def run(ctx):
